@@ -50,6 +50,7 @@ type ArrayV struct{ E []Value }
 
 type Obj struct {
 	ID int
+	T  types.Type // static type of an input root object (for the write monitor)
 	// StrOrigin: the array was created by []byte(s) for this string and has
 	// not been written since (string(b) then gives s back).
 	StrOrigin *StrV
